@@ -56,6 +56,10 @@ def sites(files):
             if not s or s.startswith("#") or s.startswith("//") or s.startswith("*"):
                 continue
             code = line.split("/*")[0]
+            # null-argument guards: no property speaks about null arguments, the harness passes none
+            nxt = " ".join(x.strip() for x in src[i + 1:i + 3])
+            if "SBDF_ERROR_ARGUMENT_NULL" in nxt or "SBDF_ERROR_ARGUMENT_NULL" in code:
+                continue
             for k, (pat, rep) in enumerate(OPS):
                 for m in re.finditer(pat, code):
                     out.append((f, i, m.start(), m.end(), k))
